@@ -36,6 +36,7 @@ DEFAULTS = {
     'sample_rate': 100.0,
     'profile': None,           # per-template amplitude level permutations (list of lists) or None
     'spike_samples': None,     # explicit list or None
+    'nonpositive_spikes': (),  # spikes whose first-component features are all <= 0
     'n_loc': None,             # width of the feature tables (default min(n_channels, 3))
     'n_tloc': None,            # width of the template-feature tables (default min(n_templates, 2))
     'ind_dtype': 'uint32',     # dtype of pc_feature_ind / template_feature_ind
@@ -300,6 +301,9 @@ def make_dataset(d, spec=None):
             for p in range(npcs):
                 for c in range(nloc):
                     pcf[i, p, c] = ((i * 5 + p * 3 + c * 7 + fill) % 13 - 4) * 0.5
+        for i in s['nonpositive_spikes']:
+            if i < n_f:
+                pcf[i, 0, :] = [-1.0, 0.0, -0.5, -2.0][:nloc]
         if s['content'] == 'nan_features':
             pcf[0, 0, 0] = np.nan
         truth['pc_features'] = pcf
